@@ -204,3 +204,61 @@ func VH_C05_sam() {
 	vAssert("C05.sam.indels-from-cigar-in-reference-coordinates", vFormatAll(A.Vs, false) == exp)
 	_ = encoding.MakeEncodingArray
 }
+
+// VH_C11_history: two queries handled one after the other by the same sam-variants worker (as with -t 1):
+// the second query's mutations must not depend on the first (no state carried between pairs).
+func VH_C11_history() {
+	L := vParam("L")
+	O := vParam("O")
+	ML := vParam("ML")
+	ref := make([]byte, L)
+	for i := range ref {
+		ref[i] = vNuc(vName("ref", i), "ACGT")
+	}
+	cds, inter := vAnnotation(ref)
+	// two single-record queries with arbitrary CIGARs
+	v1 := vSamRecord("q1", 0, L, O, ML, []int{vM, vI, vD})
+	v2 := vSamRecord("q2", 1, L, O, ML, []int{vM, vI, vD})
+	build := func(v vRec, idx int) (alignPair, bool) {
+		cSR := make(chan samRecords, 1)
+		cSR <- samRecords{records: []biogosam.Record{v.rec}, idx: idx}
+		close(cSR)
+		cPair := make(chan alignPair, 1)
+		cErr := make(chan error, 4)
+		refCopy := append([]byte{}, ref...)
+		blockToPairwiseAlignment(cSR, cPair, cErr, refCopy, false)
+		if len(cPair) != 1 {
+			vAssert("C11.history.pair-built", false)
+			return alignPair{}, false
+		}
+		return <-cPair, true
+	}
+	p1, ok1 := build(v1, 0)
+	p2, ok2 := build(v2, 1)
+	if !ok1 || !ok2 {
+		return
+	}
+	t1 := alignPair{ref: append([]byte{}, p1.ref...), query: append([]byte{}, p1.query...)}
+	t2 := alignPair{ref: append([]byte{}, p2.ref...), query: append([]byte{}, p2.query...)}
+	cP := make(chan alignPair, 2)
+	cP <- p1
+	cP <- p2
+	close(cP)
+	cV := make(chan variants.AnnoStructs, 2)
+	cErr := make(chan error, 4)
+	getVariantsSam(cds, inter, cP, cV, cErr)
+	vAssert("C11.history.two-results", len(cV) == 2 && len(cErr) == 0)
+	if len(cV) != 2 {
+		return
+	}
+	A1 := <-cV
+	A2 := <-cV
+	B1, okb1 := vFastaVariants(t1.ref, t1.query, cds, inter, 0)
+	B2, okb2 := vFastaVariants(t2.ref, t2.query, cds, inter, 0)
+	if okb1 {
+		vAssert("C11.history.first-query-agrees", vFormatAll(A1.Vs, true) == vFormatAll(B1.Vs, true))
+	}
+	if okb2 {
+		vAssert("C11.history.second-query-independent-of-first", vFormatAll(A2.Vs, true) == vFormatAll(B2.Vs, true))
+	}
+}
